@@ -297,6 +297,13 @@ def indexing(ctx):
             ctx.count("index:reference-ndim-mismatch")
             ctx.notes.append(f"reference ndim mismatch {desc}: {m} vs {expected_value.shape}") if len(ctx.notes) < 8 else None
             continue
+        # the hand-written model of `_get_index_mapping` (about which the tables T19_index_table_* are proved) against the method itself
+        rm = call_impl(lambda: T._get_index_mapping(index))
+        if mdl.startswith("ok"):
+            mm = [None if x == "N" else int(x) for x in (mdl.split(" ")[1].split(".") if mdl.split(" ")[1] != "-" else [])]
+            if rm[0] != "ok" or list(rm[1]) != mm:
+                ctx.disagree("C19:index:model-vs-code", desc, f"model of the code: {mm}", rm[1:3] if rm[0] != "ok" else list(rm[1]), replay=[desc])
+                continue
         exp_cov = [i for i, a in enumerate(m) if a in cov]
         exp_con = [i for i, a in enumerate(m) if a in con]
         kinds = "".join(sorted(set(t[0] for t in toks)))
